@@ -36,7 +36,10 @@ OPS = ([("use_name", "numpy"), ("use_name", "casadi"), ("use_name", "bogus"), ("
        + [("step_partial", "spyNP"), ("step_partial", "spySX")]
        # selecting a fresh, default-configured instance of the real NumPy engine (equal in configuration to the one
        # use("numpy") creates, but another object)
-       + [("use_fresh_numpy",)])
+       + [("use_fresh_numpy",)]
+       # a step with an explicit engine on elements of user-defined subclasses that record which engine every one of
+       # their methods is handed
+       + [("step_probe", "spyNP"), ("step_probe", "spyMX")])
 
 KIND_TYPES = {"numpy": (np.ndarray, np.floating, float), "SX": (cs.SX,), "MX": (cs.MX,)}
 
@@ -179,6 +182,31 @@ def run_history(spec: NetSpec, hist, st: Stats):
                     bad("step/selection-changed", f"current engine is now {engines.get_current_engine()!r}")
                     current = engines.get_current_engine()
                 built = build(spec)
+            elif k == "step_probe":
+                from ..graphmodel import PROBE_LOG
+                explicit = spies[op[1]]
+                pb = build(spec, subclass="probe")
+                del PROBE_LOG[:]
+                st.inc("executions")
+                try:
+                    pb.net.step(engine=explicit, **P)
+                except Exception as e:  # noqa: BLE001
+                    bad(f"step/exception/{exc_site(e)}/{type(e).__name__}", f"elements of user-defined subclasses: {exc_text(e)}")
+                    return problems
+                st.inc("probe_calls", len(PROBE_LOG))
+                for cname, mname, eng in PROBE_LOG:
+                    if eng is not explicit:
+                        bad(f"step/user-element-not-given-the-explicit-engine/{cname}.{mname}",
+                            f"{cname}.{mname} of a user-defined subclass was handed engine {eng!r} during a step with the explicit "
+                            f"engine {explicit!r} (with None it falls back to the selected engine {current!r})")
+                        break
+                for name, s in spies.items():
+                    if s is not explicit and s.total() != 0:
+                        bad(f"step/foreign-engine-called/{'selected' if s is current else 'unrelated'}/{sorted(s.calls)[0]}",
+                            f"{name} received calls {dict(s.calls)} although the step must use {explicit!r}")
+                if engines.get_current_engine() is not current or sym_metanet.engine is not current:
+                    bad("step/selection-changed", f"current engine is now {engines.get_current_engine()!r}")
+                    current = engines.get_current_engine()
             elif k == "stepfail":
                 explicit = spies[op[1]] if op[1] else None
                 bad_P = {k_: v for k_, v in P.items() if k_ != "T"}
@@ -268,7 +296,11 @@ def explore(tier, seed, nproc):
                    "`current` is compared with get_current_engine()/sym_metanet.engine, and for steps the per-engine call "
                    "counters and the types of all element variables are checked"}
     assumptions = ["spies count calls made through engine.nodes/links/origins/destinations, var, vcat, max; a primitive that "
-                   "internally calls a sibling static method (controlled_Veq -> Veq) is not seen twice"]
+                   "internally calls a sibling static method (controlled_Veq -> Veq) is not seen twice",
+                   "probe elements (step_probe): user-defined subclasses overriding every element method that has an `engine` "
+                   "parameter, or takes the network and **kwargs; during a step with an explicit engine each of these calls must "
+                   "be handed that very engine object (an override that uses the engine it is given would otherwise compute "
+                   "with the selected one)"]
     return st, cov, assumptions
 
 
